@@ -505,7 +505,10 @@ Definition eval_stmt_step (self : evals) (st : state) (s : stmt) : R :=
       | SExpr _ e =>
           let+ (v, st1) := r_eval self st0 e in
           if is_exit v then ROk (v, st1)
-          else match v with VHTML _ => ROk (v, st1) | _ => ROk (VNil, st1) end
+          else match e, v with
+               | EHtml _ _, VHTML _ => ROk (v, st1)     (* literal text only, not HTML values *)
+               | _, _ => ROk (VNil, st1)
+               end
       | SRet _ is_e e =>
           let+ (v, st1) := r_eval self st0 e in
           ROk ((if is_e then v else VRet [v]), st1)
